@@ -406,6 +406,14 @@ Definition dm_vanish_check (before after : dump) (dms : list N) : list viol :=
                      | _, _ => []
                      end) (t_objs before).
 
+(* attr->group.depth as hwloc_set_group_depth() assigns it: the k-th normal level made of Groups has depth k
+   (hwloc_get_type_depth_with_attr relies on it) *)
+Definition group_depth_check (d : dump) : list viol :=
+  let glevels := filter (fun l => (l_type l =? Z.of_N HWLOC_OBJ_GROUP)%Z) (normal_levels d) in
+  flat_map (fun p => flat_map (fun o => chk (o_group_depth o =? Z.of_nat (fst p))%Z "group-depth-stale" (o_id o))
+                              (derefs d (l_ids (snd p))))
+           (combine (seq 0 (List.length glevels)) glevels).
+
 (* userdata presence per gp_index before/after *)
 Definition ud_check (before after : list (N * bool)) : list viol :=
   flat_map (fun p => match find (fun q => fst q =? fst p) before with
